@@ -2,4 +2,8 @@
 EXTENDS TaskStream
 PN2 == (1 :> 2) @@ (2 :> 1)
 PN1 == (1 :> 1) @@ (2 :> 1)
+TagN == (1 :> 0) @@ (2 :> 0) @@ (3 :> 0) @@ (4 :> 0)
+\* critical stream: pusher 1's tasks carry isolation 7, pusher 2's none; thread 3 pops with isolation 7, thread 4 pops anything
+TagC == (1 :> 7) @@ (2 :> 0) @@ (3 :> 7) @@ (4 :> 0)
+PN21 == (1 :> 2) @@ (2 :> 1)
 ====
